@@ -1,4 +1,4 @@
-(* C13 -- a failing output writer aborts rendering with the writer's error.
+(* C13 -- a failing output writer aborts rendering with the writer error.
    Only statements, `exact`, and Print Assumptions live here. *)
 From Verif Require Import Bytes Facts_render RendererM TCalcM TCalc_proofs.
 Open Scope N_scope.
@@ -34,7 +34,7 @@ Qed.
 Print Assumptions C13_holds.
 
 (* the general form: also when the failing call is not reached (the two runs
-   coincide), and for either way of raising the converter's error *)
+   coincide), and for either way of raising the converter error *)
 Theorem write_fail_stops :
   forall (showf : N -> N -> bytes -> shown) (conv : option (bytes -> list bytes)) (cf : bool)
          (main : tfunc) (w : writer) (k : N) (e : werr),
@@ -48,8 +48,8 @@ Theorem write_fail_stops :
 Proof. exact write_fail_stops_gen. Qed.
 Print Assumptions write_fail_stops.
 
-(* "the host does not panic" is refuted for the code that raises the
-   converter's error as a fatalError (the tree before the repair): an HTML file
+(* the host does not panic is refuted for the code that raises the
+   converter error as a fatalError (the tree before the repair): an HTML file
    rendering a Markdown file, the writer failing during the conversion *)
 Theorem host_does_not_panic_refuted :
   exists main w k e conv showf,
